@@ -29,8 +29,8 @@ func elemOfCall(v ssa.Value) (*ssa.Call, *ssa.IndexAddr) {
 }
 
 type recipient struct {
-	kind string     // SELF | MEMBERS(FieldX) | REGISTRY | TARGET(FieldX) | CLIENT(...) | ZERO | OTHER
-	elem ssa.Value  // the *ClientConn element when drawn from a list
+	kind string    // SELF | MEMBERS(FieldX) | REGISTRY | TARGET(FieldX) | CLIENT(...) | ZERO | OTHER
+	elem ssa.Value // the *ClientConn element when drawn from a list
 	loop *ssa.IndexAddr
 }
 
@@ -470,11 +470,15 @@ func checkC12(R *Run) {
 	if m := R.mustFn("(*hotline.MemChatManager).Members"); m != nil {
 		ok := false
 		eachInstr(m, func(i ssa.Instruction) {
-			if r, isR := i.(*ssa.Range); isR {
-				if f, isF := loadedField(r.X); isF && f == "hotline.PrivateChat.ClientConn" {
-					// the chat is chats[id]
-					u := r.X.(*ssa.UnOp)
-					if lk, isL := u.X.(*ssa.FieldAddr).X.(*ssa.Lookup); isL && lk.Index == ssa.Value(m.Params[1]) {
+			mv := enumeratedMap(i)
+			if mv == nil {
+				return
+			}
+			if f, isF := loadedField(mv); isF && f == "hotline.PrivateChat.ClientConn" {
+				// the chat is chats[id]
+				u := mv.(*ssa.UnOp)
+				if fa, isFA := u.X.(*ssa.FieldAddr); isFA {
+					if lk, isL := fa.X.(*ssa.Lookup); isL && lk.Index == ssa.Value(m.Params[1]) {
 						ok = true
 					}
 				}
@@ -602,4 +606,23 @@ func handlerFn(regs []HandlerReg, f *ssa.Function) bool {
 		}
 	}
 	return false
+}
+
+// enumeratedMap: the map whose every element the instruction enumerates — a range over it, or maps.Values /
+// maps.Keys / maps.All of it (iterator form, collected by slices.Collect / slices.Sorted…).
+func enumeratedMap(i ssa.Instruction) ssa.Value {
+	switch x := i.(type) {
+	case *ssa.Range:
+		if _, ok := x.X.Type().Underlying().(*types.Map); ok {
+			return x.X
+		}
+	case *ssa.Call:
+		switch calleeName(&x.Call) {
+		case "maps.Values", "maps.Keys", "maps.All":
+			if len(x.Call.Args) == 1 {
+				return stripConv(x.Call.Args[0])
+			}
+		}
+	}
+	return nil
 }
